@@ -851,6 +851,66 @@ pub fn add_forward_violation(ch: &mut Choices, prog: &mut Program) -> bool {
     true
 }
 
+/// A constraint that the witness misses "by one term": Σ cᵢ·Xᵢ − k' with k' the value of the
+/// expression in which one term is sign-flipped, dropped or doubled. The row is violated by
+/// (1 − f)·cⱼ·vⱼ ≠ 0, while an implementation whose expression arithmetic mistreats exactly that
+/// term would see it satisfied. Returns the label of the variant.
+pub fn add_near_miss(ch: &mut Choices, prog: &mut Program) -> Option<String> {
+    let sv: Vec<StaticVar> = static_vars(prog).into_iter().filter(|s| s.val.iter().all(|v| !v.is_zero_spec())).collect();
+    if sv.is_empty() {
+        return None;
+    }
+    let nt = 1 + ch.below(3);
+    let ts: Vec<(StaticVar, ScalarSpec)> = (0..nt).map(|_| (sv[ch.below(sv.len())].clone(), ScalarSpec::gen_nonzero(ch))).collect();
+    let j = match ch.below(3) {
+        0 => 0,
+        1 => nt - 1,
+        _ => ch.below(nt),
+    };
+    let (f, fname) = match ch.below(3) {
+        0 => (Some(ScalarSpec::MinusOne), "sign-flipped"),
+        1 => (None, "dropped"),
+        _ => (Some(ScalarSpec::Small(2)), "doubled"),
+    };
+    let mut lc = vec![];
+    let mut base = vec![];
+    for (i, (t, c)) in ts.iter().enumerate() {
+        lc.push((t.var, Sc::C(c.clone())));
+        let mut p = vec![c.clone()];
+        p.extend(t.val.iter().cloned());
+        if i == j {
+            match &f {
+                Some(fs) => p.insert(0, fs.clone()),
+                None => continue,
+            }
+        }
+        base.push((Var::One, Sc::Prod(p)));
+    }
+    // anywhere: constraints are flattened at the end, so the place does not matter to the API
+    let mut lists: Vec<Option<usize>> = vec![None];
+    for (i, op) in prog.ops.iter().enumerate() {
+        if matches!(op, Op::Closure(_)) {
+            lists.push(Some(i));
+        }
+    }
+    let list = lists[ch.below(lists.len())];
+    let op = Op::Constrain { lc, err: None, base: Some(base) };
+    match list {
+        None => {
+            let pos = ch.below(prog.ops.len() + 1);
+            prog.ops.insert(pos, op)
+        }
+        Some(i) => match &mut prog.ops[i] {
+            Op::Closure(b) => {
+                let pos = ch.below(b.len() + 1);
+                b.insert(pos, op)
+            }
+            _ => unreachable!(),
+        },
+    }
+    Some(format!("{}:term-{}-of-{}", fname, j, nt))
+}
+
 /// Is this a forward-reference constraint added by `add_forward_refs`?
 pub fn is_forward(op: &Op) -> bool {
     matches!(op, Op::Constrain { base: Some(b), lc, .. } if !lc.is_empty() && b.iter().all(|(v, c)| matches!(v, Var::One) && matches!(c, Sc::Prod(_))))
